@@ -619,7 +619,7 @@ func vRunDialFree(sc *vDialScenario) ([]vOutEvent, map[string]interface{}) {
 				e, tf = "err", vErrTimeout(err)
 			}
 			late := 0
-			if to > 0 && el > to+time.Second {
+			if to > 0 && el > to+5*time.Second { // (scheduling slack: the machine may be heavily loaded)
 				late = 1
 			}
 			mu.Lock()
